@@ -86,7 +86,7 @@ func (g *gen) sliceInOut(name string, typs []types.Type) (inTyp types.Type, outT
 	if res.Len() != 2 {
 		return nil, nil, fmt.Errorf("%s, the function argument does not have a single result, but has %d resulting parameters", name, res.Len())
 	}
-	if !derive.IsError(res.At(1).Type()) {
+	if !derive.IsErrorType(res.At(1).Type()) {
 		return nil, nil, fmt.Errorf("%s, the function's second result is not an error, but %s", name, g.TypeString(res.At(1).Type()))
 	}
 	outTyp = res.At(0).Type()
